@@ -266,6 +266,7 @@ type AV struct {
 	n     int64  // N const
 	nk    bool   // N: n is known
 	pos   bool   // N: known >= 1
+	nn    bool   // N: known >= 0
 	s     string // S const
 	sk    bool
 	obj   int    // L/M/P/A: heap object id (0 = none)
@@ -281,6 +282,7 @@ type AV struct {
 	agg   *aggVal
 	fld   bool // R: obtained through FieldByName (exported-ness unknown)
 	fn    *ssa.Function // U: the function value, when known
+	tag   string // symbolic origin used by the command-line rule (J-ABS): expr, json(file(flag:input)), ...
 }
 
 type fact struct {
@@ -376,6 +378,9 @@ func (v AV) writeKeyM(b *strings.Builder, m func(int) int) {
 	if v.pos {
 		b.WriteByte('+')
 	}
+	if v.nn {
+		b.WriteByte('0')
+	}
 	if v.sk {
 		b.WriteByte('s')
 		b.WriteString(strconv.Quote(v.s))
@@ -445,6 +450,10 @@ func (v AV) writeKeyM(b *strings.Builder, m func(int) int) {
 	if v.fld {
 		b.WriteByte('f')
 	}
+	if v.tag != "" {
+		b.WriteByte('#')
+		b.WriteString(v.tag)
+	}
 }
 
 // joinAV: least upper bound, used only where the executor merges element
@@ -468,6 +477,7 @@ func joinAV(a, b AV) AV {
 		out.nk = false
 	}
 	out.pos = a.pos && b.pos
+	out.nn = (a.nn || a.pos || (a.nk && a.n >= 0)) && (b.nn || b.pos || (b.nk && b.n >= 0))
 	if !(a.sk && b.sk && a.s == b.s) {
 		out.sk = false
 	}
@@ -482,6 +492,9 @@ func joinAV(a, b AV) AV {
 	}
 	out.bad = a.bad || b.bad
 	out.facts = nil
+	if a.tag != b.tag {
+		out.tag = joinProv(a.tag, b.tag)
+	}
 	return out
 }
 
